@@ -34,7 +34,7 @@ Definition RefProduct (x : input) (p : seq) : Prop := MayProduct x [] p.
 Definition MustReport (x : input) (p : seq) : Prop :=
   (exists m, length m = length (in_vars x) /\
      let h := select m (in_vars x) in
-     nonempty h = true /\ pairwise true h = true /\ forallb (must_var x) h = true /\
+     nonempty h = true /\ pairwise true h = true /\ forallb (must_var x) h = true /\ no_run3 h = true /\
      exists st, In st (must_starts x (apply_hap (in_tx x) h)) /\
        Product x (must_nf x) (must_tail x)
                (translate_from (apply_hap (in_tx x) h) st (map (shift h) (in_sec x))) p)
